@@ -80,7 +80,10 @@ class C13(Prop):
                 m = rng.randint(2, 6)
                 alts = gen.alt_ids(rng, m, zero_ok=True)
                 orders = [list(o) for o in gen.strict_orders(rng, alts, rng.randint(1, 5))]
-                yield {"kind": "profile", "alts": alts, "orders": orders, "planted": None}
+                c = {"kind": "profile", "alts": alts, "orders": orders, "planted": None}
+                if rng.random() < 0.5:
+                    c["store"] = gen.perm(rng, alts)
+                yield c
             else:
                 m = rng.choice([3, 4, 5, 6, 8, 12, 25])
                 alts = gen.alt_ids(rng, m, zero_ok=True)
@@ -101,7 +104,7 @@ class C13(Prop):
     def run_impl(self, case):
         from preflibtools.properties.subdomains.ordinal.singlepeaked.single_peaked_tree import is_single_peaked_on_tree
         prof = [(tuple((a,) for a in o), 1) for o in case["orders"]]
-        inst = gen.make_ordinal(prof, alts=case["alts"], data_type="soc")
+        inst = gen.make_ordinal(prof, alts=case.get("store", case["alts"]), data_type="soc")
         r = call(is_single_peaked_on_tree, inst)
         if r[0] == "ok":
             v, t = r[1]
